@@ -16,6 +16,7 @@ Generic runner `cbmc_query(qid, params, ctx)`; params keys:
   instrument   list of [repo-relative source, output file name, anchor regex, text(, "replace")]: a copy of the CURRENT /repo
                source with `text` inserted on a line of its own before the one line matching the anchor (or, with
                "replace", substituted for the matched text) is generated into
+               (an entry ["@gen", "module:function", output name, args] writes the C text returned by function(ctx, args))
                a scratch include directory (first on the include path) for the harness to #include, for the CBMC
                build and the native replay alike (check-time source instrumentation instead of a hook in /repo)
 """
@@ -99,6 +100,16 @@ def instrument_dir(ctx, params):
         os.makedirs(d, exist_ok=True)
         files = {}
         for ent in spec:
+            if ent[0] == "@gen":       # ["@gen", "module:function", output name, args]: C text generated from the current /repo
+                import importlib       # (e.g. an assembly kernel lifted to C by vlib/x86lift.py)
+                mod, fn = ent[1].split(":")
+                try:
+                    text = getattr(importlib.import_module(mod), fn)(ctx, ent[3])
+                except Exception as e:
+                    return None, "generator %s failed: %r" % (ent[1], e)
+                with open(os.path.join(d, ent[2]), "w") as fh:
+                    fh.write(text)
+                continue
             src, outname, anchor, text = ent[:4]
             mode = ent[4] if len(ent) > 4 else "insert"
             if outname not in files:
